@@ -45,6 +45,13 @@ CHECKS["C16"] = dict(
     ref="5/C16",
 )
 
+CHECKS["C03"] = dict(
+    technique="TLA+ dump-layout and XML-transport specification (TTXDump.tla) model-checked over the option lattice; real dumps/imports over the lattice judged by TLC (per-table interned bytes, include graph, text channels)",
+    text="TLC checks the dump-layout predicate against a reference dumper for every option/selection combination and the XML white-space laws; then every configuration of the real option lattice (splitTables, splitGlyphs, disassembleInstructions, 4 bitmap formats, 3 newline conventions, all/only/skip selections; 288 configurations) is run on a rotating sample of corpus fonts and every font with the default configuration: TLC requires equal compiled bytes per dumped table between the original object model and the re-imported dump (free-text differences licensed only if visible in the dump and vanishing under white-space collapse), a complete and unambiguous include graph of the files written, and unchanged adversarial strings through text-node and attribute channels.",
+    note="Trusted: TLC, the independent sfnt reader, regex scan of dump files. Partial dumps are merged into a copy of the original (ttx -m semantics).",
+    ref="5/C03",
+)
+
 NOT_YET = "check not built yet in this round (see DESIGN.md section 10 for the build order)"
 
 
